@@ -229,6 +229,18 @@ def run(ctx):
             pts, fam = rdpfam.bytecount_curve(rng, rng.randrange(6, 30))
             opts = dict(opts, int_dtype=rng.random() < 0.8)
         one(ctx, kind, pts, opts, fam)
+    for _ in range(6 if quick else 80):
+        # LONG curves (staircases, noisy decays; 280-900 points): the criterion profiles are jagged, not unimodal - anything that searches
+        # them coarse-to-fine, strided or capped finds another optimum
+        kind = rng.choice(['lmethod', 'lmethod', 'lmethod', 'curvature', 'menger', 'dfdt', 'kneedle'])
+        n = rng.randrange(280, 900)
+        w = rng.choice([5, 7, 11, 13])
+        if rng.random() < 0.6:
+            y = np.array([float((n - i) // w) for i in range(n)]) * rng.choice([1.0, 0.25])             # staircase: value changes every w points
+        else:
+            y = np.round(4096.0 * np.exp(-rng.choice([0.004, 0.01]) * np.arange(n))) / 16.0 + np.array([rng.randrange(0, 8) / 8.0 for _ in range(n)])
+        pts = np.column_stack([np.arange(n, dtype=float), y])
+        one(ctx, kind, pts, dict(rand_opts(rng, kind), int_dtype=False), 'long-jagged')
     for _ in range(5000 if quick else 60000):
         refinement_sweep(ctx, sweep_curve(rng), dict(fit=rng.choice(['pointfit', 'pointfit', 'bestfit']), mode=rng.choice(['original', 'original', 'adjusted']),
                                                       limit=rng.choice([4, 6, 8, 10, 10, 10, 12, 16])))
